@@ -31,6 +31,31 @@ def has_strings(t):
     return found
 
 
+_Q_CACHE = {}
+
+
+def has_quantifier(t):
+    tid = t.get_id()
+    if tid in _Q_CACHE:
+        return _Q_CACHE[tid][0]
+    seen = set()
+    stack = [t]
+    found = False
+    while stack:
+        x = stack.pop()
+        i = x.get_id()
+        if i in seen:
+            continue
+        seen.add(i)
+        if z3.is_quantifier(x):
+            found = True
+            break
+        if z3.is_app(x):
+            stack.extend(x.children())
+    _Q_CACHE[tid] = (found, t)
+    return found
+
+
 class PathEnd(Exception):
     """The current path is abandoned (infeasible, or cut at a loop head after the inductive step)."""
 
@@ -90,6 +115,11 @@ class Path:
                 raise PathEnd()
             return
         self.pc.append(t)
+        # feasibility is decided on an over-approximation of the path condition: quantified facts (loop invariants)
+        # are left out of both feasibility solvers, string facts out of the arithmetic one.  This can only keep
+        # more paths alive; obligations are always discharged against the full path condition.
+        if has_quantifier(t):
+            return
         self.solver.add(t)
         if not has_strings(t):
             self.arith.add(t)
